@@ -12,7 +12,8 @@ RULE = ("one generated case list (convert / + / - / == / < / sorted over equal-d
         "two fresh children, `python` and `python -O`; distinct = (operation, shape class of both sides, connectivity "
         "class); non-trivial = the two sides are different units"
         " Where nothing connects the two sides the outcome is prescribed (ConversionNotFound / == False / TypeError), zero-against-zero questions are the first thing each process asks about its new units, and product-defined units of the user's own declared with Decimal and with float numbers meet in impossible conversions."
-        " One side may carry a remainder without a dimension (an unconnected energy or force unit over base units of that dimension): nothing to convert it with.")
+        " One side may carry a remainder without a dimension (an unconnected energy or force unit over base units of that dimension): nothing to convert it with."
+        " Orderings against levels of unreachable references; pairs and rings of three units declared in terms of one another, every operation under a 20 s CPU-time limit (expiry = conversion-does-not-terminate).")
 ASSUMPTIONS = [
     "permitted failures: ConversionNotFound from in_unit/+/-; TypeError from ordering; == never raises",
     "outcomes are compared by exception type name and by repr of the returned magnitude",
